@@ -156,6 +156,41 @@ def gen_tree(rng, want_std=None):
     return {"tree": out, "id": wid}
 
 
+def add_deep(rng, c):
+    """A non-standard symlink (in the run dir or inside the target of a standard symlink dir) to an outside
+    directory with nested sub-directories and files at depth >= 2; returns patterns that match below the link
+    without matching the intermediate directories."""
+    t = c["tree"]
+    kinds = {e[0]: e for e in t}
+    run_s = "cylc-run/" + c["id"]
+    if run_s not in kinds:
+        return None
+    base = kinds[run_s][2].lstrip("/") if kinds[run_s][1] == "l" else run_s
+    if base not in kinds or kinds[base][1] != "d":
+        return None
+    # candidate places: the run dir itself, or a valid standard symlink dir (logical name, physical dir)
+    places = [("", base)]
+    for d in ("log", "share", "work"):
+        e = kinds.get(base + "/" + d)
+        if e and e[1] == "l" and e[2].startswith("/scr/") and e[2].endswith("/" + c["id"] + "/" + d) \
+                and kinds.get(e[2][1:], [0, ""])[1] == "d":
+            places.append((d + "/", e[2][1:]))
+    logical, phys = rng.choice(places)
+    lname = rng.choice(["extdata", "lnk", "x"])
+    if phys + "/" + lname in kinds:
+        return None
+    out = rng.choice(["out", "ext/deepout"])
+    for pth, k in ((out, "d"), (out + "/top.txt", "f"), (out + "/keep", "d"), (out + "/keep/precious.txt", "f"),
+                   (out + "/keep/deep", "d"), (out + "/keep/deep/gold.txt", "f"), (out + "/keep2", "d"),
+                   (out + "/keep2/cow", "f")):
+        if pth not in kinds:
+            t.append([pth, k])
+    t.append([phys + "/" + lname, "l", "/" + out])
+    L = logical + lname
+    return ["**/precious.txt", "**/gold.txt", "**/*.txt", "**/cow", "**/deep", f"{L}/keep/*", f"{L}/keep/deep/gold.txt",
+            f"{L}/*/*", f"{L}/keep/deep/", "*/*/*", "*/*/*/*", f"{L}/keep2/cow", f"{L}/*/deep/*", "**/keep/*"]
+
+
 PATTERNS = ["log", "share", "share/cycle", "work", "log/job", "*", "**", "**/*", "*/", "a", "a/*", "*/b", "**/c*", "c*",
             "[ab]*", "x", "nonexistent", "share/*", "log/**", "a/b/", "**/cow", ".hid", "*/*", "cat", "**/a", "d1/",
             "share/cycle/*", "work/**/x", "?", "*a*"]
@@ -204,7 +239,9 @@ class CleanStream(Stream):
     rule = ("real clean(id, run_dir, parse_rm_dirs(patterns)|None) on generated scratch trees: run dir content with "
             "files/dirs/symlinks (to outside dirs and files, broken, relative with .., into the run dir), standard symlink "
             "dirs (valid, broken, invalid, nested share/cycle, the run dir itself), sentinels outside, runN/_cylc-install "
-            "siblings; 0-3 --rm patterns from a pool of literal and glob patterns or wholesale; non-trivial = something was "
+            "siblings; 0-3 --rm patterns from a pool of literal and glob patterns or wholesale; 30% of targeted cases add a "
+            "non-standard symlink (run dir or inside a standard target) to an outside tree with files at depth >= 2 and patterns "
+            "matching below it without matching the intermediate dirs (**/<leaf>, <link>/<dir>/*, */*/*, exact deep paths); non-trivial = something was "
             "deleted or clean refused; quick 160 cases, thorough 2500")
 
     def gen(self, rng, tier):
@@ -224,6 +261,11 @@ class CleanStream(Stream):
                     pats[0] = rng.choice(names) if rng.random() < 0.5 else "**/" + rng.choice(names)
                 c["patterns"] = pats
                 c["kind"] = "targeted"
+                if rng.random() < 0.3:
+                    deep = add_deep(rng, c)
+                    if deep:
+                        c["patterns"] = rng.sample(deep, rng.choice([1, 1, 2])) + (pats[:1] if rng.random() < 0.3 else [])
+                        c["kind"] = "deep-link"
             cases.append(c)
         return cases
 
@@ -232,6 +274,16 @@ class CleanStream(Stream):
                 ["cylc-run/wf/cat/b/cow", "f"], ["cylc-run/wf/zed", "d"], ["cylc-run/wf/zed/cup", "f"],
                 ["scr", "d"], ["scr/cylc-run", "d"], ["scr/cylc-run/wf", "d"], ["scr/cylc-run/wf/log", "d"],
                 ["cylc-run/wf/log", "l", "/scr/cylc-run/wf/log"], ["ext", "d"], ["ext/keep", "f"]]
+        R, S = "cylc-run/foo/run1", "sym-share/cylc-run/foo/run1/share"
+        demo = [["cylc-run", "d"], ["cylc-run/foo", "d"], [R, "d"], [R + "/.service", "d"], [R + "/.service/db", "f"],
+                [R + "/flow.cylc", "f"], [R + "/log", "d"], [R + "/log/scheduler", "d"], [R + "/log/scheduler/log.txt", "f"],
+                [R + "/work", "d"], [R + "/work/1", "d"], [R + "/work/1/task", "d"], [R + "/work/1/task/out.txt", "f"],
+                [R + "/work/1/task/out.nc", "f"], ["sym-share", "d"], ["sym-share/cylc-run", "d"],
+                ["sym-share/cylc-run/foo", "d"], ["sym-share/cylc-run/foo/run1", "d"], [S, "d"], [S + "/data.txt", "f"],
+                [S + "/cycle", "d"], [S + "/cycle/a.txt", "f"], ["outside", "d"], ["outside/top.txt", "f"],
+                ["outside/keep", "d"], ["outside/keep/precious.txt", "f"], ["outside/keep/deep", "d"],
+                ["outside/keep/deep/gold.txt", "f"], [R + "/share", "l", "/" + S], [R + "/extdata", "l", "/outside"],
+                [S + "/extdata2", "l", "/outside"], [R + "/dangling.txt", "l", "/nowhere"]]
         return [
             # regression (fixed in /repo 877abf5): matched dir `cat` and a deeper match `cat/b/cow` while a std
             # symlink dir exists used to crash with FileNotFoundError and leave `zed/cup`
@@ -241,6 +293,11 @@ class CleanStream(Stream):
             # non-standard symlink to an outside dir: unlinked, not followed
             {"tree": base + [["cylc-run/wf/out", "l", "/ext"]], "id": "wf", "patterns": ["out", "out/*"], "kind": "targeted"},
             {"tree": base + [["cylc-run/wf/out", "l", "/ext"]], "id": "wf", "patterns": None, "kind": "wholesale"},
+            # seeded regression (/verif/seeded/C38/demo.py): non-standard symlink extdata -> outside dir with
+            # sub-directories; a match at depth >= 2 below it must not be deleted through the link
+            {"tree": demo, "id": "foo/run1", "patterns": ["**/*.txt"], "kind": "deep-link"},
+            {"tree": demo, "id": "foo/run1", "patterns": ["extdata/keep/*", "work/"], "kind": "deep-link"},
+            {"tree": demo, "id": "foo/run1", "patterns": ["*/*/*", "share/extdata2/keep/deep/gold.txt"], "kind": "deep-link"},
         ]
 
     # ---- implementation -------------------------------------------------
